@@ -160,7 +160,8 @@ def nt_c09(tr):
     return big and has(tr, 36) and (has(tr, 45, lambda e: e[3] == 2) or has(tr, 14) or sum(1 for e in tr if e[0] == 45 and e[3] == 0) >= 2)
 
 
-THEOREMS_C09 = ['C09_acceptor_invariant', 'C09_fanout_serves_each_held_subscriber_exactly_once', 'C09_only_subscribers_are_served', 'C09_one_fanout_at_a_time', 'C09_clone_goes_to_its_target', 'C09_clone_is_an_ordinary_message', 'C09_table_holds_no_reference']
+THEOREMS_C09 = ['C09_acceptor_invariant', 'C09_fanout_serves_each_held_subscriber_exactly_once', 'C09_only_subscribers_are_served', 'C09_one_fanout_at_a_time', 'C09_clone_goes_to_its_target', 'C09_clone_is_an_ordinary_message', 'C09_table_holds_no_reference',
+                "C09_mailbox_processed_in_order_of_acceptance", "C09_ith_processed_is_ith_accepted", "C09_subscribed_before_means_in_the_table", "C09_nothing_after_a_processed_unsubscribe"]
 
 PROPS = {
     "C07": {
@@ -190,7 +191,7 @@ PROPS = {
     "C06": {
         "families": [("faults", 1200, 30000), ("children", 400, 10000), ("broker", 400, 8000)],
         "monitors": ["C03", "C14"],
-        "theorems": ["C06_containment", "C06_dead_is_silent", "C06_seen_as_stopped"],
+        "theorems": ["C06_containment", "C06_dead_is_silent", "C06_seen_as_stopped", "C06_terminated_actor_stays_contained", "C06_terminated_actor_is_silent"],
         "nontrivial": nt_c06,
         "rule": "cases generated from (family, VERIF_SEED, index): every fault kind (failed or panicking started, panic in a handler or in stopped, fatal timeout, cancellation of the loop task after its n-th poll) at random positions in programs with pending callers, timers, children and bystander handles; non-trivial = an actor's task ended by a failure while client operations, timers or children existed; distinct = distinct case JSON",
         "assumptions": ["F7 (a service whose started fails panics the caller of from_registry in debug builds) is avoided by the generators and recorded as a known finding"],
@@ -290,7 +291,7 @@ PROPS = {
     },
     "C09": {
         "families": [("broker", 1500, 40000)],
-        "monitors": ["C09", "C03"],
+        "monitors": ["C09", "C03", "C09q"],
         "theorems": THEOREMS_C09,
         "nontrivial": nt_c09,
         "rule": "cases generated from (family, VERIF_SEED, index): 1-3 publishing client tasks, 1-4 subscribers over 1-2 topics; subscribe in started() or later, re-subscribe, unsubscribe, stop and last-drop of subscribers at random positions; publishing through Broker::publish, Addr<Broker>::publish and Context::publish; bounded subscriber mailboxes with busy handlers (the broker parks); non-trivial = a fan-out over a table of at least two subscribers, with an unsubscribe, a terminated subscriber or several publications around; distinct = distinct case JSON",
@@ -334,9 +335,11 @@ MANIFEST_TEXT = {
     "C09": {
         "text": "Theorems (Coq) about the broker state machine that is run as acceptor on every implementation trace: C09_acceptor_invariant (every reachable acceptor state, any trace: a subscriber is in a table at most once; served / being served / to be served are disjoint and exactly the held ones), "
                 "C09_fanout_serves_each_held_subscriber_exactly_once, C09_only_subscribers_are_served, C09_one_fanout_at_a_time, C09_clone_goes_to_its_target; and about the main model: C09_clone_is_an_ordinary_message (a closed subscriber is skipped without effect), C09_table_holds_no_reference. "
-                "[partial] the broker's own mailbox is not modelled: 'subscribed before the publish began => in the table at fan-out', 'never after a completed unsubscribe' and 'the common order extends each publisher's order' are checked on implementation traces by the search acceptor from client-side stamps and the broker's probes.",
+                "The broker's mailbox is the second machine, Chk/C09q.v (a topic operation is accepted in the step in which it returns; the broker must take operations out in that order and may hold senders only for subscribers of the table they produce); about every run of it: C09_mailbox_processed_in_order_of_acceptance / C09_ith_processed_is_ith_accepted (what is processed is always a prefix of what was accepted, in order: per-publisher order, one common order), "
+                "C09_subscribed_before_means_in_the_table, C09_nothing_after_a_processed_unsubscribe. Both machines run, extracted, on every implementation trace. "
+                "[partial] 'a subscriber in the table that is alive and strongly held is in fact held and served' is the broker's upgrade loop, checked on implementation traces by the search acceptor; the machines are tied to the code by correspondence (acceptance of every trace), not derived from it.",
         "note": COMMON_NOTE,
-        "technique": "Rocq/Coq proof (invariant over all runs of an extracted acceptor state machine + one-step theorems) ; correspondence: the extracted acceptor and the main model must accept every implementation trace of the broker family",
+        "technique": "Rocq/Coq proof (invariants over all runs of two extracted acceptor state machines - fan-out and mailbox order - + one-step theorems) ; correspondence: the extracted acceptor and the main model must accept every implementation trace of the broker family",
         "design_ref": "DESIGN.md section 6 C09",
     },
     "C02": {
